@@ -1,11 +1,11 @@
 (* C02 — algorithmic model of ParseLines.analyze / collect_items / splitdl (no proofs here).
-   Source: /repo/src/mwlib/parser/refine/core.py, class ParseLines (:388-547).  The model mirrors the imperative
+   Source: /repo/src/mwlib/parser/refine/core.py, class ParseLines (:388-551).  The model mirrors the imperative
    structure of the code (the while loops, the accumulators `node.children`, `description_data`, `broke_loop`), NOT
    the structure of the denotation `den_list` of Model.v; ProofsLines.v proves that both compute the same trees.
 
    Abstract input: `line` of Model.v = (lineprefix as code points, trees of the text before the first top-level
    colon, Some (trees of the text after that colon) if the line has one).  A t_complex_line token of the code
-   (created at core.py:578-586, 592-601, 622-630; lineprefix = stripped text of the t_item/t_colon token, :548-549) is one `line`.
+   (created at core.py:585-592, 601-609, 625-633; lineprefix = stripped text of the t_item/t_colon token, :552-553) is one `line`.
 
    OUT OF SCOPE (said here once): the `endtag` branch of append_line (core.py:496-508: a literal </ul> / </ol>
    html end tag inside a line of a * / # list cuts the line in two) — abstract lines carry no html end tags, so
@@ -72,20 +72,21 @@ Fixpoint inner_while (prefix : N) (item : list line) (ls : list line) : list lin
   end.
 
 (* core.py:393-402 splitdl(item.children[0]) on a retyped line: the first top-level t_special ":" cuts it; the text
-   after it becomes the children of a new complex_style ":" token; None if there is no such token *)
-Definition splitdl (l : line) : option (line * tree) :=
+   after it becomes the children of a new complex_style ":" token; None if there is no such token.  Returned: what is
+   left of the line, and the children list of the new token (collect_items still extends that list, :542) *)
+Definition splitdl (l : line) : option (line * list tree) :=
   match ldesc l with
-  | Some d => Some ((lpre l, ltxt l, None), Node LDd d)
+  | Some d => Some ((lpre l, ltxt l, None), d)
   | None => None
   end.
 
-Definition is_dl (prefix : N) : bool := N.eqb prefix c_colon || N.eqb prefix c_semi.   (* `prefix in ":;"` :542 *)
+Definition is_dl (prefix : N) : bool := N.eqb prefix c_colon || N.eqb prefix c_semi.   (* `prefix in ":;"` :546 *)
 
 (* analyze_loop  = the while of analyze (core.py:407-438); done = lines[:startpos], ls = lines[startpos:-1] (the
                    guard appended at :405 and removed at :439 is the end of ls);
    outer_while   = `while startpos < len(lines)-1 and getchar(lines[startpos]) == prefix: collect_items; if broke_loop:
                    break` (:419-424); children = node.children, dd = description_data;
-   collect_items = core.py:513-546.
+   collect_items = core.py:513-550.
    One unit of fuel per loop iteration and per call. *)
 Fixpoint analyze_loop (fuel : nat) (done : list otok) (ls : list line) {struct fuel} : lres (list otok) :=
   match fuel with
@@ -142,16 +143,19 @@ with collect_items (fuel : nat) (prefix : N) (children : list (list otok)) (dd :
                else None) with
         | Some (l0, ich') =>
           match splitdl l0 with                                          (* :538 description_data = self.splitdl(...) *)
-          | Some (l0', d) => LOk (children ++ [OLine l0' :: ich'], Some d, rest, true)    (* :539-541 *)
+          | Some (l0', d) =>                                             (* :539-545 (fix 9ee1990): the other children of the *)
+            (* item — what the swallowed lines became — are moved behind the description text: description_data.children
+               .extend(item.children[1:]); del item.children[1:]; broke_loop = True; break *)
+            LOk (children ++ [[OLine l0']], Some (Node LDd (d ++ render ich')), rest, true)
           | None =>                                                      (* description_data is None now *)
-            if is_dl prefix then LOk (children ++ [ich], None, rest, true)               (* :542-544 *)
+            if is_dl prefix then LOk (children ++ [ich], None, rest, true)               (* :546-548 *)
             else collect_items f prefix (children ++ [ich]) None rest
           end
         | None =>
-          if is_dl prefix then LOk (children ++ [ich], dd, rest, true)    (* :542-544 *)
+          if is_dl prefix then LOk (children ++ [ich], dd, rest, true)    (* :546-548 *)
           else collect_items f prefix (children ++ [ich]) dd rest        (* next iteration of :517 *)
         end)
-      else LOk (children, dd, ls, false)                                  (* :517 condition false; :546 *)
+      else LOk (children, dd, ls, false)                                  (* :517 condition false; :550 *)
     | [] => LOk (children, dd, ls, false)
     end
   end.
@@ -172,16 +176,3 @@ Definition valid_lines (ls : list line) : Prop := Forall (fun l => Forall valid_
 Fixpoint leaves (t : tree) : list (N * bool * bool) :=
   match t with Leaf w b i => [(w, b, i)] | Node _ ch => flat_map leaves ch end.
 Definition leaves_l (ts : list tree) : list (N * bool * bool) := flat_map leaves ts.
-
-(* the one situation in which mwlib does NOT keep the text of list lines in source order: a line `p; term : desc`
-   (prefix p followed by a last char `;`, with a top-level colon) directly followed by a line whose prefix starts with
-   `p;` and has at least one more char.  The second line is swallowed by the item of the term (inner while,
-   core.py:522-527) and stays in the term when splitdl (core.py:538) cuts the description off item.children[0] only:
-   it ends up BEFORE the description. *)
-Definition dl_swallows (l l' : line) : Prop :=
-  ldesc l <> None /\ exists p x q, lpre l = p ++ [c_semi] /\ lpre l' = p ++ c_semi :: x :: q.
-Fixpoint no_dl_swallow (ls : list line) : Prop :=
-  match ls with
-  | l :: r => match r with l' :: _ => ~ dl_swallows l l' | [] => True end /\ no_dl_swallow r
-  | [] => True
-  end.
